@@ -12,7 +12,8 @@ HYPOTHESES = []
 NOT_YET_PROVED = []
 ASSUMPTIONS = []
 nontrivial = nontrivial_default
-EXTRA_MODULES = {"Props.TiePairing": "PyEcc.Tie.", "Props.TieMiller": "PyEcc.Tie.", "Props.TieHashCurve": "PyEcc.Tie."}
+EXTRA_MODULES = {"Props.TiePairing": "PyEcc.Tie.", "Props.TieMiller": "PyEcc.Tie.", "Props.TieHashCurve": "PyEcc.Tie.", "Props.TieFieldsFq": "PyEcc.Tie.", "Props.TieFieldsFqp": "PyEcc.Tie.", "Props.TieFieldsMul": "PyEcc.Tie.", "Props.TieFieldsPoly": "PyEcc.Tie.", "Props.TieFieldsInv": "PyEcc.Tie."}
+
 CHUNK = 1
 P = O.BLS_P
 
@@ -74,16 +75,38 @@ def opt_eq_ref_pred(curve, a, b, seed):
     return (not bad, f"{curve}: {bad} at a={a} b={b}")
 
 
+def coincidence_scales(Pt):
+    """scalings lam of the representative (lam x, lam y, lam) for which intermediate projective coordinates COINCIDE although the
+    points differ: z(2Q') = z(Q') (lam^5 = 1/(8 y^3): 'same denominator' after the first doubling of a ladder / Miller loop),
+    z(2Q') = 1 (lam^6 = 1/(8 y^3)) — the inputs on which a co-Z or z == 1 fast path would be taken"""
+    if Pt is None:
+        return []
+    y = Pt[1]
+    one = y.like(1)
+    t = one / (y * y * y * y.like(8))
+    n = (y.p ** 2 - 1) if isinstance(y, O.Fp2) else (y.p - 1)
+    out = []
+    for k in (5, 6, 3):
+        try:
+            e = pow(k, -1, n)
+        except ValueError:
+            continue
+        lam = t.pow(e)
+        if lam.pow(k) == t:
+            out.append(lam)
+    return out
+
+
 def structured_rep_pred(curve, a, b):
     """optimized pairing on structured representatives (z in the base field, z = i, 1+i, 9+i, ...) == reference pairing"""
     g1, g2 = grp("Opt" + curve, "G1"), grp("Opt" + curve, "G2")
     Pt, Q = O.aff_mul(g1.gen, a), O.aff_mul(g2.gen, b)
     rf = lib_pairing("Ref" + curve, Q, Pt)
     bad = []
-    for sq in structured_scales(g2.b):
+    for sq in structured_scales(g2.b) + coincidence_scales(Q):
         if lib_pairing("Opt" + curve, Q, Pt, sq=sq, sp=g1.b.like(1)) != rf:
             bad.append(f"Q scaled by {sq}")
-    for sp in structured_scales(g1.b):
+    for sp in structured_scales(g1.b) + coincidence_scales(Pt):
         if lib_pairing("Opt" + curve, Q, Pt, sq=g2.b.like(1), sp=sp) != rf:
             bad.append(f"P scaled by {sp}")
     return (not bad, f"{curve}: optimized pairing differs from the reference on representatives {bad[:4]} of the same points (a={a}, b={b})")
